@@ -70,7 +70,7 @@ def scp_case(value, lazy=False):
                         % (len(matches), len(rsps), [r['fields'].get(0x0900) for r in rsps]), case)
     for i, ((m, code), r) in enumerate(zip(matches, rsps)):
         svc.check_response(PROP, req, r, pc_id, lambda s, c=code: s == c, case, what='match %d: ' % (i + 1))
-        if r['data'] is None or not svc.ds_equal(svc.dec_ds(r['data'], ts), to_ds(m)):
+        if r['data'] is None or not svc.wire_ds_equal(r['data'], ts, to_ds(m)):
             raise Violation('%s:scp:identifier' % PROP, 'match %d: identifier on the wire differs from the one supplied' % (i + 1), case)
         if r['fields'].get(0x0800) == refcmd.NO_DATASET:
             raise Violation('%s:scp:dataset-flag' % PROP, 'match %d flagged as having no data set' % (i + 1), case)
@@ -139,7 +139,7 @@ def scu_case(value):
     if rq is None:
         raise Violation('%s:scu:no-request' % PROP, 'no C-FIND-RQ was sent', case)
     rq_ts = str(dul.accepted_contexts[rq['pc_ids'][0]].supported_ts)
-    if not svc.ds_equal(svc.dec_ds(rq['data'] or b'', rq_ts), to_ds(query)) or rq['fields'].get(0x0002) != sop:
+    if not svc.wire_ds_equal(rq['data'] or b'', rq_ts, to_ds(query)) or rq['fields'].get(0x0002) != sop:
         raise Violation('%s:scu:query' % PROP, 'identifier / SOP class of the C-FIND-RQ differ from what the caller gave', case)
     want = [(m, code) for m, code in matches] + [(None, final)]
     if len(got) != len(want):
